@@ -163,6 +163,8 @@ impl MetadataSlab {
             .shards
             .iter()
             .flat_map(|s| {
+                #[cfg(feature = "neumann_verif")]
+                crate::verif_hooks::yield_point("metadata.scan_all.before_shard");
                 s.read()
                     .iter()
                     .map(|(k, v)| (k.clone(), v.clone()))
@@ -242,6 +244,8 @@ impl MetadataSlab {
             .shards
             .iter()
             .flat_map(|s| {
+                #[cfg(feature = "neumann_verif")]
+                crate::verif_hooks::yield_point("metadata.scan_all.before_shard");
                 s.read()
                     .iter()
                     .map(|(k, v)| (k.clone(), v.clone()))
